@@ -1,6 +1,7 @@
 package vc
 
 import (
+	"go/token"
 	"fmt"
 	"go/constant"
 	"go/types"
@@ -68,6 +69,14 @@ func intBits(b *types.Basic) (bits int, signed bool, ok bool) {
 	return 0, false, false
 }
 
+// MathBits is the width that stands for `integer` in bit-vector proofs: contracts that use it there
+// carry explicit no-overflow preconditions, so the values are the mathematical ones.
+const MathBits = 2112
+
+// MathInt is the specification-only type `integer`: an unbounded mathematical integer in arith int,
+// a signed MathBits-bit vector in arith bv.
+var MathInt types.Type = types.NewNamed(types.NewTypeName(token.NoPos, nil, "integer", nil), types.Typ[types.Int], nil)
+
 func isInt(t types.Type) bool {
 	b, ok := t.Underlying().(*types.Basic)
 	if !ok {
@@ -96,6 +105,12 @@ func isByteArray(t types.Type) (n int64, ok bool) {
 
 // SortOf maps a Go type to an SMT sort.
 func (c *Ctx) SortOf(t types.Type) string {
+	if t == MathInt {
+		if c.Mode == ModeBV {
+			return fmt.Sprintf("(_ BitVec %d)", MathBits)
+		}
+		return "Int"
+	}
 	switch u := t.Underlying().(type) {
 	case *types.Basic:
 		if bits, _, ok := intBits(u); ok {
@@ -176,6 +191,9 @@ func (c *Ctx) structOf(t types.Type) *structInfo {
 
 // Zero returns the zero value of a type.
 func (c *Ctx) Zero(t types.Type) string {
+	if t == MathInt {
+		return c.IntLit(big.NewInt(0), MathBits)
+	}
 	switch u := t.Underlying().(type) {
 	case *types.Basic:
 		if bits, _, ok := intBits(u); ok {
@@ -312,6 +330,9 @@ func (c *Ctx) ConstVal(v constant.Value, t types.Type) string {
 // ---- integer arithmetic in the selected mode ----
 
 func (c *Ctx) bits(t types.Type) (int, bool) {
+	if t == MathInt {
+		return MathBits, true
+	}
 	b, ok := t.Underlying().(*types.Basic)
 	if !ok {
 		fail("not an integer type: %s", t)
@@ -325,7 +346,7 @@ func (c *Ctx) bits(t types.Type) (int, bool) {
 
 // Range returns lo <= x <= hi for integer type t in Int mode ("true" in BV mode).
 func (c *Ctx) Range(x string, t types.Type) string {
-	if c.Mode == ModeBV {
+	if c.Mode == ModeBV || t == MathInt {
 		return "true"
 	}
 	lo, hi := c.Bounds(t)
@@ -412,6 +433,9 @@ func (c *Ctx) IMul(a, b string) string {
 // obligation is emitted by the caller (wrap-around conversions are modelled
 // with mod).
 func (c *Ctx) Convert(x string, from, to types.Type) string {
+	if c.Mode == ModeInt && to == MathInt {
+		return x
+	}
 	fb, fs := c.bits(from)
 	tb, ts := c.bits(to)
 	if c.Mode == ModeBV {
